@@ -114,6 +114,8 @@ fn main() -> tantivy::Result<()> {
     let index = Index::create(MarkDir(mmap), schema, IndexSettings::default())?;
     mark("api_end/create");
     let mut w: IndexWriter = index.writer_with_num_threads(1, 15_000_000)?;
+    // no background merges: every meta.json replacement then happens inside a bracketed API call of this thread
+    w.set_merge_policy(Box::new(tantivy::merge_policy::NoMergePolicy));
     let mut next = 1u64;
     let mut commits = 0;
     for step in 0..(6 + rnd(10)) {
